@@ -35,6 +35,7 @@ type c19Desc struct {
 	RootsIn   bool   `json:"roots_in,omitempty"`   // every root of the generated input is one of its blocks
 	ZeroRoots bool   `json:"zero_roots,omitempty"` // header with an empty / null root list
 	Dag       string `json:"dag,omitempty"`        // get-dag: dag-cbor | dag-cbor with absent link | unixfs
+	Big       int    `json:"big,omitempty"`        // > 0: an input of that many tiny blocks
 }
 
 const (
@@ -166,7 +167,22 @@ func c19Plain(seed int64, cont string, rootsIn, zeroRoots bool) *c19In {
 	if r.Intn(4) == 0 {
 		c.Blocks = append(c.Blocks, gen.BoundaryBlock(r, []int{127, 128, 129, 300, 16383, 16384}[r.Intn(6)]))
 	}
+	if !rootsIn && !zeroRoots && r.Intn(8) == 0 {
+		c.Blocks = nil // a header and nothing else: roots, no sections
+	}
 	return c19Decode(c19Render(r, cont, c.Roots, c.NilRoots, c.Blocks))
+}
+
+// c19BigInput: thousands of tiny honest blocks (more than any batch size a command might use).
+func c19BigInput(seed int64, cont string, n int) *c19In {
+	r := gen.Rand(seed)
+	var blks []refcar.Block
+	for i := 0; i < n; i++ {
+		data := []byte{byte(i), byte(i >> 8), byte(i >> 16), byte(seed)}
+		h, _ := refcar.Hash(0x12, data)
+		blks = append(blks, refcar.Block{Cid: refcar.MakeCidV1(0x55, 0x12, h), Data: data})
+	}
+	return c19Decode(c19Render(r, cont, [][]byte{blks[0].Cid, blks[n-1].Cid}, false, blks))
 }
 
 // ---------------------------------------------------------------- case environment
@@ -874,7 +890,10 @@ func (e *c19Env) formConcat(in *c19In) {
 	f := strings.Fields(e.d.Form)
 	args = append(args, f[1:]...)
 	outP := e.outPath("out.car")
-	args = append(args, "-o", outP)
+	toStdout := e.r.Intn(3) == 0 // without -o the archive goes to standard output
+	if !toStdout {
+		args = append(args, "-o", outP)
+	}
 	var want []refcar.Block
 	for i, x := range ins {
 		args = append(args, e.write(fmt.Sprintf("in%d.car", i), x.file))
@@ -883,6 +902,11 @@ func (e *c19Env) formConcat(in *c19In) {
 	res := e.run(nil, args...)
 	if !e.must(res) {
 		return
+	}
+	if toStdout {
+		outP = e.write("out.car", res.Stdout)
+		e.t.Cover("variant:stdout")
+		e.t.Cover("variant:concat-to-stdout")
 	}
 	o := e.accept(outP)
 	if o == nil {
@@ -1292,6 +1316,10 @@ func runC19(t *mon.T, raw json.RawMessage) {
 			t.Cover("input:zero-roots")
 		}
 		in := c19Plain(d.Seed, d.Cont, d.RootsIn, d.ZeroRoots)
+		if d.Big > 0 {
+			in = c19BigInput(d.Seed, d.Cont, d.Big)
+			t.Cover("input:thousands-of-blocks")
+		}
 		c19CoverInput(t, in)
 		switch verb {
 		case "index":
@@ -1336,6 +1364,9 @@ func c19CoverInput(t *mon.T, in *c19In) {
 		}
 		mhs[c19Mh(b.Cid)] = string(b.Cid)
 	}
+	if len(in.blocks) == 0 {
+		t.Cover("input:no-blocks")
+	}
 	if id {
 		t.Cover("input:identity-block")
 	}
@@ -1356,6 +1387,16 @@ func c19CoverInput(t *mon.T, in *c19In) {
 
 func genC19(g *mon.G) {
 	r := gen.Rand(g.Seed)
+	for i, f := range []string{"index", "index --codec car-index-sorted", "index create", "filter --inverse", "concat --version 2", "detach-index", "list", "index --codec car-multihash-index-sorted"} {
+		if i >= g.Pick(6, 8) {
+			break
+		}
+		cont := c19Containers[i%len(c19Containers)]
+		if f == "detach-index" {
+			cont = c19V2Mh
+		}
+		g.Emit(c19Desc{Seed: int64(i) + g.Seed, Form: f, Cont: cont, RootsIn: true, Big: []int{4200, 8300, 16500, 5000}[i%4] + i})
+	}
 	n := g.Pick(60, 800)
 	for i := 0; i < n; i++ {
 		seed := r.Int63()
@@ -1402,10 +1443,11 @@ func init() {
 	for _, c := range c19Containers {
 		min["container:"+c] = 50
 	}
-	for _, k := range []string{"input:identity-block", "input:duplicate-block", "input:equal-multihash-twins", "input:root-is-a-block", "input:root-is-not-a-block",
+	for _, k := range []string{"input:identity-block", "input:duplicate-block", "input:equal-multihash-twins", "input:root-is-a-block", "input:root-is-not-a-block", "input:no-blocks",
 		"dag:" + c19DagCbor, "dag:" + c19DagUnixfs} {
 		min[k] = 10
 	}
+	min["input:thousands-of-blocks"] = 5
 	Register(&mon.Check{
 		ID:    "C19",
 		Level: "exploration",
